@@ -1063,7 +1063,11 @@ def run(ctx):
                 'the time origin moved; thorough: random histories, chained + moved origin, epochs cut into several calls); '
                 'stationarity = (nu, gamma, h, beta, theta0, T); one_pop driver = every argument of the signature (initial_t = 0 / > 0 / < 0 / = T, each of nu, gamma, h, '
                 'beta, theta0 as number / constant function / linear function of time alone and together, frozen, deme_ids) against the model driver started '
-                'at initial_t, and one call against two calls split at a step boundary; distinct = distinct parameter tuples; non-trivial = gamma <> 0 or at least one epoch')
+                'at initial_t, and one call against two calls split at a step boundary; argument types / containers / re-use of the same argument objects '
+                '(harness/props/c01_types.py, enumerated on every run: every scalar argument of one_pop (both drivers), phi_1D*, from_phi, the Demographics1D / DemogSelModels '
+                '1-D models through make_extrap_func / make_extrap_log_func and directly, as python int / float / bool, numpy float64 / float32 / int64 / int32 / bool_ and 0-d arrays, '
+                'params as list / tuple / float64 / float32 / int64 / strided / object arrays, grids as list / tuple / strided / read-only; same objects for every grid size, '
+                'timescale factor and the repeat; vs canonical spelling, oracle, arguments bit-for-bit unchanged, repeat identical); distinct = distinct parameter tuples; non-trivial = gamma <> 0 or at least one epoch')
     ctx.assumptions += ['PARTIAL: convergence of the finite-difference scheme to the diffusion and of the diffusion to the coalescent is numerical analysis that '
                         'is not mechanised (no PDE / finite-difference convergence theory installed); it is checked on generated histories against Coq-evaluated oracles',
                         'density correspondence tolerance 1e-7 relative per entry (scipy.integrate.quad has epsrel 1.5e-8; the genic closed form loses 1e-16/|gamma| to cancellation)',
@@ -1082,6 +1086,9 @@ def run(ctx):
     guard = read_guard(ctx)
     fnd = Findings(ctx)
     xcases, xfut = start_histx(ctx) if (not only or 'hist' in only) else ([], None)
+    from harness.props import c01_types
+    import sys
+    tcases, tfut = c01_types.start(ctx) if (not only or 'types' in only) else ([], None)
     if not only or 'dens' in only:
         density_part(ctx, guard, fnd)
         if not ctx.replay:
@@ -1098,3 +1105,5 @@ def run(ctx):
         snm_fixed_part(ctx)
     if not only or 'hist' in only:
         history_part(ctx, xcases, xfut)
+    if not only or 'types' in only:
+        c01_types.finish(ctx, tcases, tfut, sys.modules[__name__])
